@@ -1,10 +1,10 @@
 (** C14, CBOR: reading what the writer wrote yields the value, for every value of the class [cb] (null, booleans, machine
-    integers, big integers of any size, byte strings, valid UTF-8 text, arrays and objects of such values with any such
-    values as keys), whatever follows in the input.  Floats stay with the correspondence (Fmts/Cbor.v models the shortest
-    float format exactly; proving its round trip is not done here). *)
+    integers, big integers of any size, floats - every binary64 pattern, written in the shortest of the three widths that
+    holds it exactly (Proofs/CborFloat.v) -, byte strings, valid UTF-8 text, arrays and objects of such values with any such
+    values as keys), whatever follows in the input; a decimal literal comes back as the float it denotes. *)
 From Coq Require Import ZArith Bool List Lia.
 From Coq Require Import Init.Byte.
-From JaqV Require Import Base.F64 Base.Bytes Val.Num Val.Val Val.Utf8 Val.Err Fmts.Cbor Proofs.DigitLaws Proofs.SafeLaws Proofs.JsonValue.
+From JaqV Require Import Base.F64 Base.Bytes Val.Num Val.Val Val.Utf8 Val.Err Fmts.Cbor Proofs.DigitLaws Proofs.SafeLaws Proofs.JsonValue Proofs.CborFloat.
 Import ListNotations.
 Local Open Scope Z_scope.
 
@@ -81,6 +81,29 @@ Proof.
   exists 8%nat. apply (W 8%nat 27); [lia|reflexivity|]. unfold two64z in Ha. cbn. lia.
 Qed.
 
+Lemma title_wide major code (w : nat) arg rest : 0 <= major < 8 -> 24 <= code <= 27 ->
+  w = (if code =? 24 then 1%nat else if code =? 25 then 2%nat else if code =? 26 then 4%nat else 8%nat) ->
+  0 <= arg < 256 ^ Z.of_nat w ->
+  title ((zb (major * 32 + code) :: be w arg) ++ rest) = DOk (major, Some arg, w) rest.
+Proof.
+  intros Hm Hc Hw Hlt. cbn [app title]. destruct (first_byte major code Hm) as [-> ->]; [lia|].
+  destruct (Z.ltb_spec code 24); [lia|]. destruct (Z.eqb_spec code 31); [lia|]. destruct (Z.leb_spec 28 code); [lia|].
+  rewrite <- Hw. rewrite <- (be_length w arg) at 1. rewrite take_app. rewrite be_val_be by lia. reflexivity.
+Qed.
+
+(** a float item: the shortest width that holds the number is read back as the number *)
+Lemma float_item b fuel rest : 0 <= b < two64 -> parse (S fuel) (enc_float b ++ rest) = DOk (Num (Flt b)) rest.
+Proof.
+  intros Hb. unfold enc_float.
+  destruct (short_float 15 10 b) as [h|] eqn:E16.
+  { destruct (half_back b h Hb E16) as [Hh L]. cbn [parse]. change (zb 249) with (zb (7 * 32 + 25)).
+    rewrite (title_wide 7 25 2 h rest); [|lia|lia|reflexivity|cbn; lia]. cbn [Z.eqb Pos.eqb]. rewrite L. reflexivity. }
+  destruct (short_float 127 23 b) as [h|] eqn:E32.
+  { destruct (single_back b h Hb E32) as [Hh L]. cbn [parse]. change (zb 250) with (zb (7 * 32 + 26)).
+    rewrite (title_wide 7 26 4 h rest); [|lia|lia|reflexivity|cbn; lia]. cbn [Z.eqb Pos.eqb]. rewrite L. reflexivity. }
+  cbn [parse]. change (zb 251) with (zb (7 * 32 + 27)). rewrite (title_wide 7 27 8 b rest); [|lia|lia|reflexivity|unfold two64 in Hb; cbn; lia]. reflexivity.
+Qed.
+
 Lemma head_nonempty major arg : (1 <= length (head major arg))%nat.
 Proof. unfold head. repeat match goal with |- context [if ?c then _ else _] => destruct c end; cbn [length]; lia. Qed.
 
@@ -91,6 +114,7 @@ Inductive cb : val -> Prop :=
 | cb_null : cb Null
 | cb_bool b : cb (Bool b)
 | cb_int i : in_isize i = true -> cb (Num (Int i))
+| cb_flt b : 0 <= b < two64 -> cb (Num (Flt b))
 | cb_big z : small (length (to_bytes_be (if 0 <=? z then z else - z - 1))) -> cb (Num (Big z))
 | cb_tstr s : valid_utf8 s = true -> small (length s) -> cb (TStr s)
 | cb_bstr s : small (length s) -> cb (BStr s)
@@ -177,7 +201,7 @@ Lemma roundtrip_f : forall n v, (depth v < n)%nat -> cb v ->
 Proof.
   induction n as [|n IH]; intros v Hd Hv fuel rest Hf; [lia|].
   destruct fuel as [|fuel]; [lia|].
-  destruct Hv as [|b|i Hi|z Hz|s Hs Hl|s Hl|a Ha Hl|o Ho Hw Hl].
+  destruct Hv as [|b|i Hi|b Hb|z Hz|s Hs Hl|s Hl|a Ha Hl|o Ho Hw Hl].
   - reflexivity.
   - destruct b; reflexivity.
   - (* machine integers *)
@@ -191,6 +215,8 @@ Proof.
     + destruct (title_head 1 (- (i + 1)) rest) as (w & E); [lia|unfold two64z; lia|]. cbn [parse]. rewrite E. cbn [Z.eqb Pos.eqb].
       replace (- 1 - - (i + 1)) with i by lia.
       unfold from_integral, int_or_big. rewrite Hi. reflexivity.
+  - (* floats *)
+    cbn [encode_f enc_num]. apply float_item. exact Hb.
   - (* big integers *)
     cbn [encode_f enc_num]. unfold small in Hz.
     destruct (Z.leb_spec 0 z) as [Hp|Hp]; rewrite <- !app_assoc.
@@ -264,6 +290,11 @@ Proof.
   rewrite app_length. pose proof (depth_lt_encode (S (depth v)) v ltac:(lia)). lia.
 Qed.
 
+(** a decimal literal is written as the float it denotes (its spelling is the documented exception) *)
+Theorem cbor_decimal s rest : 0 <= dec_to_f64 s < two64 ->
+  parse_one (encode (Num (Dec s)) ++ rest) = DOk (Num (Flt (dec_to_f64 s))) rest.
+Proof. intros H. unfold parse_one, encode. cbn [depth encode_f enc_num]. apply float_item. exact H. Qed.
+
 (** a sequence of written values is read back as that sequence *)
 Theorem cbor_many_roundtrip vs : Forall cb vs -> decode_many (flat_map encode vs) = (vs, MEnd).
 Proof.
@@ -282,14 +313,14 @@ Qed.
 
 (** the class is inhabited: nested values with keys that are no strings, integers on both sides of every width *)
 Example cb_ex :
-  let v := Obj [(TStr (of_ascii [97]), Arr [Num (Int 1); Null; BStr (of_ascii [255; 0]); Num (Int (-25)); Num (Int 65536)]);
+  let v := Obj [(TStr (of_ascii [97]), Arr [Num (Int 1); Null; BStr (of_ascii [255; 0]); Num (Int (-25)); Num (Int 65536); Num (Flt 4609434218613702656); Num (Flt 4591870180066957722); Num (Flt nan_bits)]);
                 (Num (Int 2), TStr (of_ascii [195; 169]));
                 (Arr [], Obj [(Bool true, Num (Big (2 ^ 70))); (Null, Num (Big (- 2 ^ 64 - 1)))])] in
   cb v /\ parse_one (encode v) = DOk v [].
 Proof.
   cbv zeta.
   match goal with |- cb ?v /\ _ => assert (R : cb v) end.
-  { repeat first [ apply cb_null | apply cb_bool | apply cb_int; reflexivity | apply cb_big; vm_compute; reflexivity
+  { repeat first [ apply cb_null | apply cb_bool | apply cb_int; reflexivity | apply cb_flt; vm_compute; split; [discriminate|reflexivity] | apply cb_big; vm_compute; reflexivity
                  | apply cb_tstr; vm_compute; reflexivity | apply cb_bstr; vm_compute; reflexivity
                  | apply cb_arr; [|vm_compute; reflexivity] | apply cb_obj; [|vm_compute; auto|vm_compute; reflexivity]
                  | apply Forall_nil | apply Forall_cons; cbn [fst snd] | split ]. }
